@@ -11,7 +11,7 @@ Definition old_order : list stage := [SDeser; SSig; SParams].
 Definition old_cfg : cfg := {|
   c_order_sock := old_order; c_order_unary := old_order; c_order_init := old_order;
   c_pre := c_pre std_cfg; c_fchecks := c_fchecks std_cfg; c_dbranches := c_dbranches std_cfg;
-  c_conv := c_conv std_cfg; c_400 := c_400 std_cfg; c_other_status := 500; c_marker_status := 500 |}.
+  c_conv := c_conv std_cfg; c_400 := c_400 std_cfg; c_schema_resolved := true; c_other_status := 500; c_marker_status := 500 |}.
 
 Definition r_v : str := [118].
 Definition r_w : str := [119].
@@ -29,7 +29,7 @@ Definition r_int : pyval :=
   {| v_bytes := false; v_str := false; v_list := false; v_enum := None; v_dc := None; v_dict := None; v_fset := None |}.
 (* column w arrives as type tag 2 (int64) instead of the declared tag 1 (int32) *)
 Definition r_req : request := {|
-  q_method := MKName r_d; q_version := VOk; q_rows := 1;
+  q_method := MKName r_d; q_version := VOk; q_rows := 1; q_inline := None;
   q_cols := [({| f_name := r_v; f_type := 0; f_null := false |}, CVal r_blob);
              ({| f_name := r_w; f_type := 2; f_null := false |}, CVal r_int)] |}.
 
@@ -54,3 +54,23 @@ Lemma C06_new_order_same_request_400 :
   o_status (http_call std_cfg [r_mi] (fun _ _ => BOk) false r_d r_req) = 400 /\
   o_reason (http_call std_cfg [r_mi] (fun _ _ => BOk) false r_d r_req) = RType 1.
 Proof. split; vm_compute; reflexivity. Qed.
+
+(* A configuration that records the request schema BEFORE shared-memory pointer resolution: a pointer batch with the
+   declared schema lets a retyped resolved batch reach the method. *)
+Definition early_schema_cfg : cfg := {|
+  c_order_sock := std_order; c_order_unary := std_order; c_order_init := std_order;
+  c_pre := c_pre std_cfg; c_fchecks := c_fchecks std_cfg; c_dbranches := c_dbranches std_cfg;
+  c_conv := c_conv std_cfg; c_400 := c_400 std_cfg; c_schema_resolved := false; c_other_status := 500; c_marker_status := 500 |}.
+Definition r_good_blob : pyval :=
+  {| v_bytes := true; v_str := false; v_list := false; v_enum := None; v_dc := None; v_dict := None; v_fset := None |}.
+Definition r_shm_req : request := {|
+  q_method := MKName r_d; q_version := VOk; q_rows := 1; q_inline := Some (mi_schema r_mi);
+  q_cols := [({| f_name := r_v; f_type := 0; f_null := false |}, CVal r_good_blob);
+             ({| f_name := r_w; f_type := 2; f_null := false |}, CVal r_int)] |}.
+Lemma C06_schema_before_resolution_invokes_nonconforming_refuted :
+  ~ schema_conforms r_mi r_shm_req /\
+  o_invoked (serve_one early_schema_cfg [r_mi] (fun _ _ => BOk) r_shm_req) = true /\
+  o_invoked (serve_one std_cfg [r_mi] (fun _ _ => BOk) r_shm_req) = false.
+Proof.
+  split; [intro H; unfold schema_conforms in H; simpl in H; discriminate|]. split; vm_compute; reflexivity.
+Qed.
